@@ -10,7 +10,8 @@ Close Scope N_scope.
 Lemma facts_ok7 :
   url_vroot_mode = UrlTupleCompare /\ c07_name_default = [] /\ c07_root_tuple = [[]] /\
   c07_trail_elt = [] /\ c07_trail_sep = [slash] /\ c07_vtuple_head = [[]] /\
-  c07_elements_sep = [slash] /\ c07_script_quoted = true.
+  c07_elements_sep = [slash] /\ c07_script_quoted = true /\
+  c07_elements_safe = path_segment_safe /\ c07_script_safe = path_segment_safe ++ [slash].
 Proof. vm_compute. repeat split; reflexivity. Qed.
 
 Lemma f_mode7 : url_vroot_mode = UrlTupleCompare. Proof. apply facts_ok7. Qed.
@@ -408,3 +409,574 @@ Proof.
   destruct (relative_absolute_agree_partial root a a names_a rel Hg Hp Hs) as (f & Hf & H1 & H2).
   unfold spec_lookup in Hf. rewrite Hx, Hd in Hf. injection Hf as <-. auto.
 Qed.
+
+(* ------------------------------------------------------------------ ResourceURL *)
+Lemma texts_eqb_eq a b : texts_eqb a b = true <-> a = b.
+Proof.
+  revert b. induction a as [|x a IH]; destruct b as [|y b]; simpl; try (split; congruence).
+  rewrite andb_true_iff, text_eqb_eq, IH. split; [intros [-> ->]; reflexivity|intros H; injection H; auto].
+Qed.
+
+Definition fm (names : list text) : text := flat_map (fun n => q n ++ [slash]) names.
+
+Lemma slashed_fm names : slashed names = slash :: fm names.
+Proof. reflexivity. Qed.
+
+Lemma fm_qpath names : names <> [] -> fm names = qpath names ++ [slash].
+Proof.
+  induction names as [|x r IH]; [congruence|]. intros _. destruct r as [|y r]; [unfold fm, qpath; simpl; rewrite app_nil_r; reflexivity|].
+  change (fm (x :: y :: r)) with ((q x ++ [slash]) ++ fm (y :: r)). rewrite IH by discriminate.
+  change (qpath (x :: y :: r)) with (q x ++ [slash] ++ qpath (y :: r)). rewrite <- !app_assoc. reflexivity.
+Qed.
+
+Lemma fm_app a b : fm (a ++ b) = fm a ++ fm b.
+Proof. unfold fm. apply flat_map_app. Qed.
+
+(* the physical path splits at any depth into the quoted prefix and the slashed rest *)
+Lemma slashed_app a b : a <> [] -> slashed (a ++ b) = (slash :: qpath a) ++ slashed b.
+Proof.
+  intros Ha. rewrite !slashed_fm, fm_app, fm_qpath by assumption. simpl. rewrite <- app_assoc. reflexivity.
+Qed.
+
+Lemma join_trail l : join [slash] (l ++ [[]]) = flat_map (fun s => s ++ [slash]) l.
+Proof.
+  induction l as [|x l IH]; [reflexivity|].
+  simpl app. destruct (l ++ [[]]) as [|y r] eqn:E; [destruct l; discriminate|].
+  change (join [slash] (x :: y :: r)) with (x ++ [slash] ++ join [slash] (y :: r)).
+  rewrite IH. simpl. rewrite <- app_assoc. reflexivity.
+Qed.
+
+Lemma join_cons_nil (l : list text) : l <> [] -> join [slash] ([] :: l) = slash :: join [slash] l.
+Proof. destruct l; [congruence|reflexivity]. Qed.
+
+Lemma flat_map_map_q rest : flat_map (fun s => s ++ [slash]) (map q rest) = fm rest.
+Proof. induction rest as [|x r IH]; [reflexivity|]. simpl. rewrite IH. reflexivity. Qed.
+
+(* ('',) + rest + ('',) joins to the slashed form *)
+Lemma jpt_trail rest : Forall (fun s => forallb valid_scalar s = true) rest ->
+  join_path_tuple (([] :: rest) ++ [[]]) = Ok (slashed rest).
+Proof.
+  intros Hf. unfold join_path_tuple. simpl app.
+  assert (Hv : Forall (fun s => forallb valid_scalar s = true) ([] :: rest ++ [[]])).
+  { constructor; [reflexivity|]. apply Forall_app. split; [assumption|]. constructor; [reflexivity|constructor]. }
+  rewrite rmap_quote by exact Hv. cbn [rbind]. simpl map. rewrite map_app. simpl map.
+  change (q []) with (@nil N).
+  match goal with |- context [join slash_text ?l] => assert (E : join slash_text l = slashed rest) end.
+  { pose proof (join_trail (map q rest)) as Hj. rewrite flat_map_map_q in Hj.
+    rewrite slashed_fm, <- Hj.
+    apply join_cons_nil. destruct (map q rest); discriminate. }
+  rewrite E. reflexivity.
+Qed.
+
+Definition prefix_of (vt names : list text) : bool := texts_eqb (firstn (length vt) names) vt.
+
+Lemma prefix_of_spec vt names : prefix_of vt names = true <-> exists rest, names = vt ++ rest.
+Proof.
+  unfold prefix_of. rewrite texts_eqb_eq. split.
+  - intros H. exists (skipn (length vt) names). rewrite <- H at 1. symmetry. apply firstn_skipn.
+  - intros [rest ->]. rewrite firstn_app, Nat.sub_diag, firstn_all. simpl. apply app_nil_r.
+Qed.
+
+(* with the trailing '' of the physical tuple, the comparison of the code is the prefix test *)
+Lemma trim_test (vt names : list (list N)) : Forall normal_seg vt ->
+  texts_eqb (firstn (length vt) (names ++ [[]])) vt = prefix_of vt names.
+Proof.
+  intros Hn. unfold prefix_of. unfold text in *. destruct (Nat.le_gt_cases (length vt) (length names)) as [Hl|Hl].
+  - rewrite firstn_app. replace (length vt - length names) with 0 by lia. simpl. rewrite app_nil_r. reflexivity.
+  - rewrite (firstn_all2 names) by lia.
+    assert (H1 : texts_eqb names vt = false).
+    { apply not_true_is_false. intros E. apply texts_eqb_eq in E. subst. lia. }
+    rewrite H1. apply not_true_is_false. intros E. apply texts_eqb_eq in E.
+    rewrite firstn_all2 in E by (rewrite app_length; simpl; lia).
+    rewrite Forall_forall in Hn.
+    assert (Hin : In [] vt) by (rewrite <- E; apply in_or_app; right; left; reflexivity).
+    destruct (Hn [] Hin) as (H & _). congruence.
+Qed.
+
+Lemma header_segments_some raw vt : header_segments (Some raw) = Some vt ->
+  exists d, decode_path_info raw = Ok d /\ vt = split_path_info d.
+Proof. simpl. destruct (decode_path_info raw) as [d| |]; try discriminate. intros H. injection H as <-. eauto. Qed.
+
+Lemma header_normal vroot vt : header_segments vroot = Some vt -> Forall normal_seg vt.
+Proof.
+  destruct vroot as [raw|]; [|intros H; injection H as <-; constructor].
+  intros H. destruct (header_segments_some _ _ H) as (d & _ & ->). apply spi_normal.
+Qed.
+
+(* what the repaired adapter computes for a resource with plain lineage names *)
+Lemma adapter_paths root r names vroot vt :
+  names_at root r = Some names -> plain names -> header_segments vroot = Some vt ->
+  exists u, resource_url_adapter UrlTupleCompare root r vroot = Val u /\ ru_pp u = slashed names /\
+            ru_vp u = if prefix_of vt names then slashed (skipn (length vt) names) else slashed names.
+Proof.
+  intros Hn Hp Hh. pose proof (plain_valid _ Hp) as Hv. pose proof (header_normal _ _ Hh) as Hnv.
+  unfold resource_url_adapter, resource_path_tuple, names_of. rewrite Hn. cbn [xbind].
+  rewrite path_list_eq, app_nil_r, jpt_abs by assumption. cbn [lift xbind].
+  rewrite f_root_tuple, f_trail_elt, f_trail_sep, f_head. unfold text in *.
+  destruct names as [|x l].
+  - (* the root *)
+    cbn [texts_eqb text_eqb andb]. change (slash :: qpath []) with (slashed []).
+    destruct vroot as [raw|].
+    + destruct (header_segments_some _ _ Hh) as (d & Hd & ->). rewrite Hd. cbn [lift xbind].
+      cbn [skipn firstn]. rewrite firstn_nil.
+      destruct (split_path_info d) as [|s vt'] eqn:E.
+      * simpl. eexists. repeat split.
+      * simpl. eexists. repeat split.
+    + injection Hh as <-. simpl. eexists. repeat split.
+  - assert (Hne : texts_eqb ([] :: x :: l) [[]] = false) by reflexivity. rewrite Hne.
+    assert (Hpp : (slash :: qpath (x :: l)) ++ [slash] = slashed (x :: l)).
+    { rewrite slashed_fm, fm_qpath by discriminate. reflexivity. }
+    rewrite Hpp.
+    destruct vroot as [raw|].
+    + destruct (header_segments_some _ _ Hh) as (d & Hd & Evt). rewrite Hd. cbn [lift xbind]. rewrite <- Evt.
+      change (skipn 1 (([] :: x :: l) ++ [[]])) with ((x :: l) ++ [[]]).
+      rewrite trim_test by assumption.
+      destruct vt as [|s vt'].
+      * simpl. eexists. repeat split.
+      * cbn [length Nat.eqb negb andb].
+        destruct (prefix_of (s :: vt') (x :: l)) eqn:Ept.
+        -- apply prefix_of_spec in Ept as [rest Er].
+           assert (Hsk : skipn (S (S (length vt'))) (([] :: x :: l) ++ [[]]) = rest ++ [[]]).
+           { change (skipn (S (S (length vt'))) (([] :: x :: l) ++ [[]])) with (skipn (S (length vt')) ((x :: l) ++ [[]])).
+             rewrite Er, <- app_assoc. change (S (length vt')) with (length (s :: vt')).
+             rewrite skipn_app, Nat.sub_diag, skipn_all. reflexivity. }
+           rewrite Hsk. change ([[]] ++ rest ++ [[]]) with (([] :: rest) ++ [[]]).
+           assert (Hrv : Forall (fun s => forallb valid_scalar s = true) rest).
+           { rewrite Er in Hv. apply Forall_app in Hv. tauto. }
+           rewrite jpt_trail by assumption. cbn [lift xbind]. eexists. split; [reflexivity|]. split; [reflexivity|].
+           cbn [ru_vp]. rewrite Er. change (S (length vt')) with (length (s :: vt')).
+           rewrite skipn_app, Nat.sub_diag, skipn_all. reflexivity.
+        -- eexists. repeat split.
+    + injection Hh as <-. simpl. eexists. repeat split.
+Qed.
+
+(* "inside the virtual root" (resource identity) = "the virtual-root segments
+   are a prefix of the lineage names", for a location-consistent tree *)
+Lemma inside_prefix root r names x vt :
+  names_at root r = Some names -> descend ([], root) names = Some (r, x) ->
+  (forall v, inside root vt r = Some v ->
+     prefix_of vt names = true /\ exists y, descend ([], root) vt = Some (v, y)) /\
+  (prefix_of vt names = true -> exists v, inside root vt r = Some v).
+Proof.
+  intros Hn Hd. split.
+  - intros v. unfold inside. destruct (descend ([], root) vt) as [[p y]|] eqn:E; [|discriminate]. simpl.
+    destruct (pos_prefixb p r) eqn:Ep; [|discriminate]. intros H. injection H as <-.
+    split; [|eauto]. apply pos_prefixb_spec in Ep as [suf ->].
+    destruct (descend_root_tree root vt (p, y) E) as (N1 & N2). simpl in N1, N2.
+    rewrite names_at_app, N2, N1 in Hn. destruct (names_at y suf) as [ns|]; [|discriminate].
+    simpl in Hn. injection Hn as <-. apply prefix_of_spec. eauto.
+  - intros Hp. apply prefix_of_spec in Hp as [rest ->]. rewrite descend_app in Hd.
+    unfold inside. destruct (descend ([], root) vt) as [v|] eqn:E; [|discriminate].
+    destruct (descend_pos _ _ _ Hd) as (suf & Hs & _). simpl in Hs.
+    assert (Hpre : pos_prefixb (fst v) r = true) by (apply pos_prefixb_spec; eauto).
+    rewrite Hpre. eauto.
+Qed.
+
+(* vroot_trim_iff_inside, first half: the virtual path is the one the property demands *)
+Theorem url_virtual_path root r names vroot vt :
+  good_resource root r = Some names -> header_segments vroot = Some vt ->
+  exists u, resource_url_adapter UrlTupleCompare root r vroot = Val u /\
+            ru_vp u = spec_virtual_path root r names vt /\ ru_pp u = slashed names.
+Proof.
+  intros Hg Hh. destruct (good_resource_spec _ _ _ Hg) as (Hn & Hp & x & Hd & _).
+  destruct (adapter_paths root r names vroot vt Hn Hp Hh) as (u & Hu & Hpp & Hvp).
+  exists u. split; [exact Hu|]. split; [|exact Hpp]. rewrite Hvp. unfold spec_virtual_path.
+  destruct (inside_prefix root r names x vt Hn Hd) as (I1 & I2).
+  destruct (inside root vt r) as [v|] eqn:Ei.
+  - destruct (I1 v eq_refl) as (-> & _). reflexivity.
+  - destruct (prefix_of vt names) eqn:Ep; [|reflexivity]. destruct (I2 eq_refl) as (v & Hv). discriminate.
+Qed.
+
+Lemma slashed_length_app a b : a <> [] -> length (slashed b) < length (slashed (a ++ b)).
+Proof. intros Ha. rewrite slashed_app by assumption. rewrite app_length. simpl. lia. Qed.
+
+(* vroot_trim_iff_inside: under a non-trivial virtual root the prefix is omitted
+   exactly when the resource lies inside the virtual root *)
+Theorem vroot_trim_iff_inside root r names vroot vt u :
+  good_resource root r = Some names -> header_segments vroot = Some vt -> vt <> [] ->
+  resource_url_adapter UrlTupleCompare root r vroot = Val u ->
+  (ru_vp u <> ru_pp u <-> exists v, inside root vt r = Some v) /\
+  (forall v, inside root vt r = Some v ->
+     ru_pp u = (slash :: qpath vt) ++ ru_vp u /\ ru_vp u = slashed (skipn (length vt) names)).
+Proof.
+  intros Hg Hh Hne Hu. destruct (url_virtual_path root r names vroot vt Hg Hh) as (u' & Hu' & Hvp & Hpp).
+  rewrite Hu in Hu'. injection Hu' as <-.
+  destruct (good_resource_spec _ _ _ Hg) as (Hn & Hp & x & Hd & _).
+  destruct (inside_prefix root r names x vt Hn Hd) as (I1 & I2).
+  rewrite Hvp, Hpp. unfold spec_virtual_path.
+  destruct (inside root vt r) as [v|] eqn:Ei.
+  - destruct (I1 v eq_refl) as (Hpre & _). apply prefix_of_spec in Hpre as [rest ->].
+    rewrite skipn_app, Nat.sub_diag, skipn_all. simpl app.
+    split.
+    + split; [eauto|]. intros _ E. pose proof (slashed_length_app vt rest Hne) as Hl. rewrite E in Hl. lia.
+    + intros v' _. split; [apply slashed_app; assumption|reflexivity].
+  - split; [|discriminate]. split; [congruence|intros [v Hv]; discriminate].
+Qed.
+
+(* ------------------------------------------------------------------ requesting the URL again *)
+Lemma unquote_slashed rest : Forall (fun s => forallb valid_scalar s = true) rest ->
+  exists trail, Percent.unquote (slashed rest) = wire_path rest trail.
+Proof.
+  intros Hv. destruct rest as [|x l].
+  - exists false. reflexivity.
+  - exists true. rewrite slashed_fm, fm_qpath by discriminate.
+    rewrite pu_cons by (unfold slash; lia). rewrite pu_qpath by eauto.
+    unfold wire_path. reflexivity.
+Qed.
+
+Lemma header_vroot_tuple pi vroot vt : header_segments vroot = Some vt ->
+  vroot_tuple_of (mkReq (Some pi) None vroot) = Ok vt.
+Proof.
+  unfold vroot_tuple_of, header_segments. simpl. destruct vroot as [raw|]; [|intros H; injection H as <-; reflexivity].
+  destruct (decode_path_info raw); try discriminate. intros H. injection H as <-. reflexivity.
+Qed.
+
+(* the URL path, requested with the same header, traverses back to the
+   resource with an empty view name (so the view registered for it runs) *)
+Theorem url_traverses_back root r names vroot vt v :
+  good_resource root r = Some names -> header_segments vroot = Some vt -> inside root vt r = Some v ->
+  request_back UrlTupleCompare root r vroot = Val (r, [], Some r).
+Proof.
+  intros Hg Hh Hi. destruct (good_resource_spec _ _ _ Hg) as (Hn & Hp & x & Hd & _).
+  destruct (url_virtual_path root r names vroot vt Hg Hh) as (u & Hu & Hvp & _).
+  destruct (inside_prefix root r names x vt Hn Hd) as (I1 & _). destruct (I1 v Hi) as (Hpre & _).
+  unfold spec_virtual_path in Hvp. rewrite Hi in Hvp.
+  apply prefix_of_spec in Hpre as [rest Er].
+  assert (Hrest : skipn (length vt) names = rest) by (rewrite Er, skipn_app, Nat.sub_diag, skipn_all; reflexivity).
+  rewrite Hrest in Hvp.
+  assert (Hpr : plain rest) by (rewrite Er in Hp; apply plain_app in Hp; tauto).
+  unfold request_back. rewrite Hu. cbn [xbind]. rewrite Hvp.
+  destruct (unquote_slashed rest (plain_valid _ Hpr)) as (trail & ->).
+  match goal with |- context [lift ?t] =>
+    replace t with (Ok (model_outcome ([], root) vt (split_path_info (text_path rest trail)) [])) end.
+  2:{ symmetry. apply traverser_on_path; [apply wire_path_decode; apply plain_valid; assumption|].
+      apply header_vroot_tuple. assumption. }
+  rewrite text_path_split by (apply plain_normal; assumption). cbn [lift xbind].
+  assert (Hd' : descend ([], root) (vt ++ rest) = Some (r, x)) by (rewrite <- Er; exact Hd).
+  assert (Hs : no_selector (vt ++ rest) = true) by (rewrite <- Er; apply plain_no_selector; assumption).
+  destruct (outcome_found ([], root) vt rest [] (r, x) Hd' Hs) as (-> & ->). reflexivity.
+Qed.
+
+(* ------------------------------------------------------------------ virtual_root() *)
+Lemma endswith_app a b : endswith b (a ++ b) = true.
+Proof. unfold endswith. rewrite rev_app_distr. apply startswith_spec. eauto. Qed.
+
+Theorem virtual_root_inverts root r names vroot vt v :
+  good_resource root r = Some names -> header_segments vroot = Some vt -> inside root vt r = Some v ->
+  virtual_root UrlTupleCompare root r vroot = Val (FoundAt v).
+Proof.
+  intros Hg Hh Hi. destruct (good_resource_spec _ _ _ Hg) as (Hn & Hp & x & Hd & _).
+  destruct (url_virtual_path root r names vroot vt Hg Hh) as (u & Hu & Hvp & Hpp).
+  destruct (inside_prefix root r names x vt Hn Hd) as (I1 & _). destruct (I1 v Hi) as (Hpre & y & Hy).
+  unfold spec_virtual_path in Hvp. rewrite Hi in Hvp.
+  apply prefix_of_spec in Hpre as [rest Er].
+  assert (Hrest : skipn (length vt) names = rest) by (rewrite Er, skipn_app, Nat.sub_diag, skipn_all; reflexivity).
+  rewrite Hrest in Hvp.
+  unfold virtual_root. rewrite Hu. cbn [xbind]. rewrite Hvp, Hpp.
+  destruct vt as [|s vt'].
+  - simpl in Er. subst rest. rewrite text_eqb_refl. simpl. simpl in Hy. injection Hy as <- _. reflexivity.
+  - rewrite Er. rewrite slashed_app by discriminate.
+    assert (Hneq : text_eqb ((slash :: qpath (s :: vt')) ++ slashed rest) (slashed rest) = false).
+    { apply text_eqb_neq. intros E. apply (f_equal (@length N)) in E. rewrite app_length in E. simpl in E. lia. }
+    rewrite Hneq, endswith_app. cbn [negb andb].
+    replace (length ((slash :: qpath (s :: vt')) ++ slashed rest) - length (slashed rest))
+      with (length (slash :: qpath (s :: vt'))) by (rewrite app_length; lia).
+    rewrite firstn_app, Nat.sub_diag, firstn_all. cbn [firstn]. rewrite app_nil_r.
+    assert (Hpv : plain (s :: vt')) by (rewrite Er in Hp; apply plain_app in Hp; tauto).
+    rewrite (find_str_of_tuple root r ([] :: s :: vt')); [|discriminate|apply jpt_abs; apply plain_valid; assumption].
+    rewrite find_abs_tuple by assumption. unfold lookup_result. rewrite Hy. reflexivity.
+Qed.
+
+(* ------------------------------------------------------------------ the URL *)
+Lemma f_elements_safe : c07_elements_safe = path_segment_safe. Proof. apply facts_ok7. Qed.
+Lemma f_elements_sep : c07_elements_sep = [slash]. Proof. apply facts_ok7. Qed.
+Lemma f_script_quoted : c07_script_quoted = true. Proof. apply facts_ok7. Qed.
+
+Lemma suffix_q els : forallb (forallb valid_scalar) els = true ->
+  match els with [] => Val [] | _ => join_elements els end = Val (join [slash] (map q els)).
+Proof.
+  intros H. destruct els as [|e l]; [reflexivity|]. unfold join_elements. rewrite f_elements_safe, f_elements_sep.
+  assert (E : rmap (fun e => quote_path_segment_safe e path_segment_safe) (e :: l) = Ok (map q (e :: l))).
+  { revert H. generalize (e :: l). intros els H. induction els as [|x r IH]; [reflexivity|].
+    simpl in H. apply andb_true_iff in H as [Hx Hr]. simpl. unfold quote_path_segment_safe at 1. rewrite Hx.
+    cbn [rbind]. rewrite IH by assumption. reflexivity. }
+  rewrite E. reflexivity.
+Qed.
+
+(* resource_url_shape: application URL, then the (virtual) path with its
+   trailing slash, then the quoted elements *)
+Theorem resource_url_shape root r names els vroot vt sn d app :
+  good_resource root r = Some names -> header_segments vroot = Some vt ->
+  forallb (forallb valid_scalar) els = true -> decode_path_info sn = Ok d ->
+  resource_url UrlTupleCompare root r els vroot sn (Some app)
+    = Val (app ++ spec_virtual_path root r names vt ++ join [slash] (map q els)) /\
+  request_resource_path UrlTupleCompare root r els vroot sn
+    = Val (Percent.quote c07_script_safe (Utf8.encode d) ++ spec_virtual_path root r names vt
+           ++ join [slash] (map q els)).
+Proof.
+  intros Hg Hh He Hd. destruct (url_virtual_path root r names vroot vt Hg Hh) as (u & Hu & Hvp & _).
+  unfold resource_url, request_resource_path, quoted_script_name. rewrite f_script_quoted, Hu, Hd.
+  cbn [lift xbind]. rewrite suffix_q by assumption. cbn [xbind]. rewrite Hvp. auto.
+Qed.
+
+Lemma inside_no_header root r : inside root [] r = Some [].
+Proof. reflexivity. Qed.
+
+(* resource_url_roundtrip: without a virtual root the URL is the application URL
+   plus the slashed quoted names, and its path traverses back to the resource *)
+Theorem resource_url_roundtrip root r names sn d app :
+  good_resource root r = Some names -> decode_path_info sn = Ok d ->
+  resource_url UrlTupleCompare root r [] None sn (Some app) = Val (app ++ slashed names) /\
+  request_back UrlTupleCompare root r None = Val (r, [], Some r).
+Proof.
+  intros Hg Hd. split.
+  - destruct (resource_url_shape root r names [] None [] sn d app Hg eq_refl eq_refl Hd) as (H & _).
+    unfold spec_virtual_path in H. rewrite inside_no_header in H. cbn [length skipn map join] in H.
+    rewrite app_nil_r in H. exact H.
+  - apply (url_traverses_back root r names None [] [] Hg eq_refl (inside_no_header root r)).
+Qed.
+
+(* ------------------------------------------------------------------ which relative paths webob takes for URLs *)
+Lemma hs_tail seen tail : (tail = [] \/ exists t, tail = slash :: t) -> has_scheme_from seen tail = false.
+Proof. intros [->|[t ->]]; reflexivity. Qed.
+
+Lemma alpha_safe c : is_alpha c = true -> (c < 128)%N /\ is_safe path_segment_safe c = true.
+Proof.
+  unfold is_alpha. intros H. split; [lia|]. unfold is_safe, always_safe, is_alnum.
+  apply orb_true_iff. left. lia.
+Qed.
+
+Lemma q_cons c s : q (c :: s) = Percent.quote path_segment_safe (encode1 c) ++ q s.
+Proof. unfold q, Utf8.encode. simpl flat_map. apply quote_app. Qed.
+
+Lemma encode1_head c : (128 <= c)%N -> valid_scalar c = true ->
+  exists b bs, encode1 c = b :: bs /\ (128 <= b)%N.
+Proof.
+  unfold valid_scalar, encode1. intros H Hv.
+  assert (E : (c <? 128)%N = false) by lia. rewrite E.
+  destruct (c <? 2048)%N eqn:H2; [eexists; eexists; split; [reflexivity|lia]|].
+  destruct (c <? 65536)%N eqn:H3; eexists; eexists; (split; [reflexivity|lia]).
+Qed.
+
+Lemma hs_q : forall s seen tail, forallb valid_scalar s = true ->
+  (tail = [] \/ exists t, tail = slash :: t) ->
+  has_scheme_from seen (q s ++ tail) = has_scheme_from seen s.
+Proof.
+  induction s as [|c s IH]; intros seen tail Hv Ht.
+  - change (q []) with (@nil N). simpl app. rewrite hs_tail by assumption. reflexivity.
+  - simpl in Hv. apply andb_true_iff in Hv as [Hc Hs]. rewrite q_cons, <- app_assoc.
+    destruct (is_alpha c) eqn:Ea.
+    + destruct (alpha_safe c Ea) as (Hlt & Hsafe).
+      unfold encode1. assert (E : (c <? 128)%N = true) by lia. rewrite E.
+      unfold Percent.quote. simpl flat_map. unfold quote1. rewrite Hsafe. simpl app.
+      simpl has_scheme_from. rewrite Ea. apply IH; assumption.
+    + simpl has_scheme_from at 2. rewrite Ea.
+      destruct (c <? 128)%N eqn:E.
+      * unfold encode1. rewrite E. unfold Percent.quote. simpl flat_map. unfold quote1.
+        destruct (is_safe path_segment_safe c) eqn:Hsafe.
+        -- simpl app. simpl has_scheme_from. rewrite Ea. reflexivity.
+        -- simpl app. simpl has_scheme_from.
+           assert (Hne : (c =? 58)%N = false).
+           { destruct (N.eqb_spec c 58) as [->|]; [|reflexivity].
+             destruct safe_facts as (_ & _ & _ & _ & H58 & _). congruence. }
+           rewrite Hne. reflexivity.
+      * destruct (encode1_head c ltac:(lia) Hc) as (b & bs & -> & Hb).
+        unfold Percent.quote. simpl flat_map. unfold quote1 at 1.
+        assert (Hns : is_safe path_segment_safe b = false).
+        { destruct (is_safe path_segment_safe b) eqn:X; [|reflexivity]. apply is_safe_ascii in X. lia. }
+        rewrite Hns. simpl app. simpl has_scheme_from.
+        assert (Hne : (c =? 58)%N = false) by lia. rewrite Hne. reflexivity.
+Qed.
+
+(* the joined relative path looks like a URL with a scheme exactly when its
+   FIRST SEGMENT, as given, starts with letters followed by a colon *)
+Theorem scheme_like_first_segment s r : forallb valid_scalar s = true ->
+  has_scheme (qpath (s :: r)) = has_scheme s.
+Proof.
+  intros Hv. unfold has_scheme, qpath. destruct r as [|y r].
+  - simpl map. simpl join. rewrite <- (app_nil_r (q s)). apply hs_q; auto.
+  - change (join [slash] (map q (s :: y :: r))) with (q s ++ slash :: join [slash] (map q (y :: r))).
+    apply hs_q; eauto.
+Qed.
+
+Definition scheme_like (rel : list text) : bool :=
+  match rel with [] => false | s :: _ => has_scheme s end.
+
+Lemma scheme_like_qpath rel : plain rel -> has_scheme (qpath rel) = scheme_like rel.
+Proof.
+  intros Hp. destruct rel as [|s r]; [reflexivity|]. apply scheme_like_first_segment.
+  pose proof (plain_valid _ Hp) as Hv. inversion Hv. assumption.
+Qed.
+
+(* relative_absolute_agree_partial in terms of the segments themselves *)
+Theorem relative_absolute_agree root a r names_a rel :
+  good_resource root a = Some names_a -> plain rel -> scheme_like rel = false ->
+  exists f, spec_lookup root a rel = Some f /\
+    find7 root a (PTuple rel) = Val f /\
+    xbind (resource_path_tuple root a rel) (fun t => find7 root r (PTuple t)) = Val f.
+Proof.
+  intros Hg Hp Hs. apply (relative_absolute_agree_partial root a r names_a rel Hg Hp).
+  rewrite scheme_like_qpath by assumption. exact Hs.
+Qed.
+
+Lemma find_abs_str root start t p segs :
+  is_ascii (slash :: t) = true -> ~ In question t ->
+  decode_path_info (webob_unquote (slash :: t)) = Ok p -> split_path_info p = segs -> plain segs ->
+  find7 root start (PStr (slash :: t)) = Val (lookup_result ([], root) segs).
+Proof.
+  intros Ha Hq Hd Hs Hp. unfold find7, traverse7. cbn [xbind]. rewrite Ha. cbn [negb]. rewrite N.eqb_refl. cbn [xbind].
+  rewrite blank_plain; [|apply has_scheme_slash|intros [H|H]; [discriminate|auto]]. cbn [xbind].
+  apply (find_on_path ([], root) _ p segs Hd Hs Hp).
+Qed.
+
+(* the string forms of the same lookups *)
+Theorem relative_absolute_agree_str root a r names_a rel s_abs :
+  good_resource root a = Some names_a -> plain rel -> scheme_like rel = false ->
+  abs_string root a (qpath rel) = Val s_abs ->
+  exists f, spec_lookup root a rel = Some f /\
+    find7 root a (PStr (qpath rel)) = Val f /\ find7 root r (PStr s_abs) = Val f.
+Proof.
+  intros Hg Hp Hs Ha.
+  destruct (relative_absolute_agree root a r names_a rel Hg Hp Hs) as (f & Hf & H1 & H2).
+  destruct (good_resource_spec _ _ _ Hg) as (Hn & Hpa & x & Hd & Hx).
+  pose proof (plain_valid _ Hp) as Hv. pose proof (plain_valid _ Hpa) as Hva.
+  exists f. split; [exact Hf|]. split.
+  - destruct rel as [|s l].
+    + (* '' and () are the same request *)
+      rewrite <- H1. reflexivity.
+    + rewrite (find_str_of_tuple root a (s :: l)); [exact H1|discriminate|].
+      apply jpt_rel; [assumption|]. pose proof (plain_nonempty _ Hp) as Hne. inversion Hne. assumption.
+  - unfold abs_string, resource_path, resource_path_tuple, names_of in Ha. rewrite Hn in Ha. cbn [xbind] in Ha.
+    rewrite path_list_eq, app_nil_r, jpt_abs in Ha by assumption. cbn [lift xbind] in Ha.
+    unfold resource_path_tuple, names_of in H2. rewrite Hn in H2. cbn [xbind] in H2. rewrite path_list_eq in H2.
+    change (([] :: names_a) ++ rel) with ([] :: (names_a ++ rel)) in H2.
+    destruct rel as [|s l].
+    + simpl in Ha. injection Ha as <-. rewrite app_nil_r in H2.
+      rewrite (find_str_of_tuple root r ([] :: names_a)); [exact H2|discriminate|apply jpt_abs; assumption].
+    + assert (Hq : qpath (s :: l) <> []).
+      { apply qpath_cons_nonempty. pose proof (plain_nonempty _ Hp) as Hne. inversion Hne. assumption. }
+      destruct (qpath (s :: l)) as [|c t] eqn:Eq; [congruence|]. injection Ha as <-. rewrite <- Eq.
+      (* "/" qpath(names_a) "/" qpath(rel): the same segments up to an empty one when a is the root *)
+      rewrite find_abs_tuple in H2 by (apply plain_app; auto). injection H2 as <-.
+      apply (find_abs_str root r _ (slash :: join [slash] names_a ++ slash :: join [slash] (s :: l))).
+      * change (is_ascii (slash :: (qpath names_a ++ slash :: qpath (s :: l))) = true).
+        unfold is_ascii. simpl. rewrite forallb_app. simpl. rewrite !qpath_ascii by assumption. reflexivity.
+      * intros H. apply in_app_or in H as [H|[H|H]]; [exact (qpath_no_question _ Hva H)|discriminate|
+          exact (qpath_no_question _ Hv H)].
+      * change (decode_path_info (webob_unquote (slash :: (qpath names_a ++ slash :: qpath (s :: l))))
+                = Ok (slash :: join [slash] names_a ++ slash :: join [slash] (s :: l))).
+        rewrite wu_cons by (unfold slash; lia). rewrite wu_qpath by eauto.
+        rewrite wu_cons by (unfold slash; lia).
+        rewrite <- (app_nil_r (qpath (s :: l))) at 1. rewrite wu_qpath by auto. rewrite wu_nil, app_nil_r.
+        rewrite !join_encode.
+        replace (slash :: encode (join [slash] names_a) ++ slash :: encode (join [slash] (s :: l)))
+          with (encode (slash :: join [slash] names_a ++ slash :: join [slash] (s :: l))).
+        -- apply decode_path_info_encode. cbn [forallb]. rewrite forallb_app. cbn [forallb].
+           rewrite !join_valid by assumption. reflexivity.
+        -- rewrite encode_cons_ascii by (unfold slash; lia). rewrite encode_app.
+           rewrite encode_cons_ascii by (unfold slash; lia). reflexivity.
+      * change (slash :: join [slash] names_a ++ slash :: join [slash] (s :: l))
+          with ((slash :: join [slash] names_a) ++ slash :: join [slash] (s :: l)).
+        rewrite spi_app.
+        pose proof (text_path_split names_a false (plain_normal _ Hpa)) as H. unfold text_path in H.
+        rewrite app_nil_r in H. rewrite H.
+        rewrite split_join by (discriminate || (eapply Forall_impl; [|apply plain_normal; exact Hp]; intros ? (_ & _ & _ & X); exact X)).
+        rewrite resolve_normal_push by (apply plain_normal; assumption).
+        rewrite rev_app_distr, !rev_involutive. reflexivity.
+      * apply plain_app. auto.
+Qed.
+
+(* ------------------------------------------------------------------ refutations and examples *)
+Definition n_one : text := [111; 110; 101]%N.
+Definition n_two : text := [116; 119; 111]%N.
+Definition n_onetwo : text := [111; 110; 101; 116; 119; 111]%N.
+Definition n_x : text := [120]%N.
+Definition n_ab : text := [97; 32; 98]%N.          (* "a b" *)
+Definition n_c : text := [99]%N.
+Definition n_http : text := [104; 116; 116; 112; 58]%N.   (* "http:" *)
+Definition n_colon : text := [97; 58; 98]%N.       (* "a:b" *)
+Definition leaf : res := Node None.
+(*  /one/two   /onetwo/x   /a b/c   /http:/x   /x   /a:b/c  *)
+Definition wit7 : res :=
+  Node (Some [(n_one, Node (Some [(n_two, leaf)])); (n_onetwo, Node (Some [(n_x, leaf)]));
+              (n_ab, Node (Some [(n_c, leaf)])); (n_http, Node (Some [(n_x, leaf)])); (n_x, leaf);
+              (n_colon, Node (Some [(n_c, leaf)]))]).
+Definition h_one : text := [47; 111; 110; 101]%N.  (* HTTP_X_VHM_ROOT=/one *)
+Definition h_ab : text := [47; 97; 32; 98]%N.      (* HTTP_X_VHM_ROOT=/a b *)
+
+(* unrepaired ResourceURL, sibling sharing a string prefix: vroot /one, resource
+   /onetwo is NOT inside the virtual root, yet its prefix is cut: 'two/' *)
+Lemma vroot_trim_refuted_sibling :
+  good_resource wit7 [1] = Some [n_onetwo] /\ header_segments (Some h_one) = Some [n_one] /\
+  inside wit7 [n_one] [1] = None /\
+  spec_virtual_path wit7 [1] [n_onetwo] [n_one] = [47; 111; 110; 101; 116; 119; 111; 47]%N /\
+  exists u, resource_url_adapter UrlStringPrefix wit7 [1] (Some h_one) = Val u /\
+            ru_vp u = [116; 119; 111; 47]%N /\ ru_vp u <> ru_pp u.
+Proof.
+  repeat (split; [vm_compute; reflexivity|]). eexists. split; [vm_compute; reflexivity|].
+  split; [reflexivity|discriminate].
+Qed.
+
+(* unrepaired ResourceURL, virtual root whose name needs quoting: vroot "/a b",
+   resource "/a b/c" IS inside (the traverser resolves the header), the prefix
+   is not cut, and the URL does not lead back under the same header *)
+Lemma vroot_trim_refuted_quoting :
+  good_resource wit7 [2; 0] = Some [n_ab; n_c] /\ header_segments (Some h_ab) = Some [n_ab] /\
+  inside wit7 [n_ab] [2; 0] = Some [2] /\
+  spec_virtual_path wit7 [2; 0] [n_ab; n_c] [n_ab] = [47; 99; 47]%N /\
+  (exists u, resource_url_adapter UrlStringPrefix wit7 [2; 0] (Some h_ab) = Val u /\
+             ru_vp u = [47; 97; 37; 50; 48; 98; 47; 99; 47]%N /\ ru_vp u = ru_pp u) /\
+  request_back UrlStringPrefix wit7 [2; 0] (Some h_ab) = Val ([2], n_ab, None) /\
+  virtual_root UrlStringPrefix wit7 [2; 0] (Some h_ab) = Val (FoundAt []).
+Proof.
+  repeat (split; [vm_compute; reflexivity|]). split.
+  - eexists. split; [vm_compute; reflexivity|]. split; reflexivity.
+  - split; vm_compute; reflexivity.
+Qed.
+
+(* the same two situations with the repaired adapter (instances of the theorems) *)
+Example vroot_trim_repaired :
+  (exists u, resource_url_adapter UrlTupleCompare wit7 [1] (Some h_one) = Val u /\ ru_vp u = ru_pp u) /\
+  (exists u, resource_url_adapter UrlTupleCompare wit7 [2; 0] (Some h_ab) = Val u /\ ru_vp u = [47; 99; 47]%N) /\
+  request_back UrlTupleCompare wit7 [2; 0] (Some h_ab) = Val ([2; 0], [], Some [2; 0]) /\
+  virtual_root UrlTupleCompare wit7 [2; 0] (Some h_ab) = Val (FoundAt [2]).
+Proof.
+  split; [eexists; split; [vm_compute; reflexivity|reflexivity]|].
+  split; [eexists; split; [vm_compute; reflexivity|reflexivity]|].
+  split; vm_compute; reflexivity.
+Qed.
+
+(* relative_absolute_agree at full strength is false of the code: a first
+   segment that reads "<letters>:" makes webob parse the joined path as a URL *)
+Lemma relative_absolute_agree_refuted :
+  good_resource wit7 [] = Some [] /\ plain [n_http; n_x] /\ plain [n_colon; n_c] /\
+  scheme_like [n_http; n_x] = true /\ scheme_like [n_colon; n_c] = true /\
+  spec_lookup wit7 [] [n_http; n_x] = Some (FoundAt [3; 0]) /\
+  find7 wit7 [] (PTuple [n_http; n_x]) = Val (FoundAt [4]) /\
+  find7 wit7 [] (PTuple ([] :: [n_http; n_x])) = Val (FoundAt [3; 0]) /\
+  spec_lookup wit7 [] [n_colon; n_c] = Some (FoundAt [5; 0]) /\
+  find7 wit7 [] (PTuple [n_colon; n_c]) = Err ETypeError /\
+  find7 wit7 [] (PTuple ([] :: [n_colon; n_c])) = Val (FoundAt [5; 0]).
+Proof. repeat split; vm_compute; reflexivity. Qed.
+
+(* non-vacuity of the central theorems *)
+Example find_path_nontrivial :
+  good_resource wit7 [0; 0] = Some [n_one; n_two] /\
+  resource_path wit7 [0; 0] [] = Val [47; 111; 110; 101; 47; 116; 119; 111]%N /\
+  find7 wit7 [4] (PStr [47; 111; 110; 101; 47; 116; 119; 111]%N) = Val (FoundAt [0; 0]) /\
+  find7 wit7 [0] (PTuple [n_two]) = Val (FoundAt [0; 0]) /\
+  find7 wit7 [0] (PTuple [n_x]) = Val KeyErr /\
+  find7 wit7 [4] (PTuple [n_x]) = Val KeyErr.
+Proof. repeat split; vm_compute; reflexivity. Qed.
+
+Example trim_nontrivial :
+  inside wit7 [n_one] [0; 0] = Some [0] /\
+  exists u, resource_url_adapter UrlTupleCompare wit7 [0; 0] (Some h_one) = Val u /\
+            ru_vp u = [47; 116; 119; 111; 47]%N /\ ru_pp u = [47; 111; 110; 101; 47; 116; 119; 111; 47]%N.
+Proof. split; [reflexivity|]. eexists. split; [vm_compute; reflexivity|]. split; reflexivity. Qed.
+
+Lemma path_info_decodes segs trail :
+  Forall (fun s => forallb valid_scalar s = true) segs -> Forall normal_seg segs ->
+  decode_path_info (wire_path segs trail) = Ok (text_path segs trail) /\
+  split_path_info (text_path segs trail) = segs.
+Proof. intros H1 H2. split; [exact (wire_path_decode segs trail H1)|exact (text_path_split segs trail H2)]. Qed.
